@@ -331,7 +331,7 @@ def run(rep, tier):
         assumptions=ASSUMPTIONS,
         rule="cases = (family, parameters, halmos options): counted loops in three syntactic forms (while / negated exit test / count-down) with trip count const n, pinned by a require, the argument, arg & 7, arg % 6; planted Panic(1) when the counter equals K below/at/above --loop in {1,2,4}; a 20-iteration concrete loop under --depth; 2^k-path branch ladders under --width; setUpSymbolic with a loop; an invariant target with a loop; several tests with the same two-path body under --depth in one run (overloads of one name, another name, the same signature in a second contract), judged per test; a path stopped by an unsupported feature (symbolic memory offset / keccak size) in the test body, in a CALL / STATICCALL / DELEGATECALL callee, in a constructor, and in setUp (body / callee); "
              "non-trivial = some concrete execution reaches the planted failure on the reference interpreter (or the loop is concrete); distinct by hash of the case",
-        partial="the L3 tie observes incompleteness only through the planted failure; --depth cuts inside setUp / targets are observed at L3 only; theorems C10_depth_cut_reported_across_contracts_refuted and C10_setup_stuck_path_selected_refuted document the two known findings",
+        partial="the L3 tie observes incompleteness only through the planted failure; --depth cuts inside setUp / targets are observed at L3 only; the early exit (ShutdownError while a stuck path is being confirmed) is excluded by hypothesis in the runner theorems",
     )
 
 
